@@ -60,6 +60,15 @@ class Run:
         if self.dead:
             raise Crash("process is gone")
 
+    def inside(self, path, what):
+        """every effect of the script must stay under the scenario's scratch root (the --outdir given to it lies there); anything else
+        is recorded and refused, so that a script that loses track of its output directory cannot write into the tree under test"""
+        p = os.path.abspath(path)
+        if p == self.root or p.startswith(self.root + os.sep):
+            return True
+        self.violations.append(("effect_outside_output_dir", "%s %s, outside the output directory %s it was given" % (what, p, self.outdir)))
+        return False
+
     def tick(self, what):
         self.alive()
         i = self.ticks
@@ -96,6 +105,8 @@ class OsProxy:
     def makedirs(self, path, exist_ok=False):
         self._run.alive()
         path = os.path.abspath(path)
+        if not self._run.inside(path, "the script creates the directory"):
+            raise PermissionError(path)
         missing = []
         p = path
         while not os.path.isdir(p):
@@ -121,6 +132,8 @@ class ShProxy:
         run = self._run
         run.alive()
         path = os.path.abspath(path)
+        if not run.inside(path, "the script removes"):
+            raise PermissionError(path)
         if not os.path.exists(path):
             if ignore_errors:
                 return
@@ -248,7 +261,11 @@ class Pipeline:
             raise RuntimeError("harness: more than 400 pipeline runs in one scenario")
         o = self._parse(cmd)
         mode = o.get("mode")
-        outdir = o["outdir"]
+        outdir = os.path.abspath(os.path.join(cwd or os.getcwd(), o["outdir"]))
+        if not run.inside(outdir, "the script launches a pipeline run writing to"):
+            raise PipelineFailure(1, "nextflow: refused (output outside the scenario)")
+        if o.get("work-dir") and not run.inside(os.path.join(cwd or os.getcwd(), o["work-dir"]), "the script launches a pipeline run with work directory"):
+            raise PipelineFailure(1, "nextflow: refused (work directory outside the scenario)")
         name = o.get("name") or "batchie"
         n_chains = int(o.get("n_chains", 1))
         n_chunks = int(o.get("n_chunks", 1))
